@@ -712,4 +712,9 @@ def gen_stream_extras(rng):
         # a reader subclass that overrides the constructor only
         d['own_ctor'] = True
 
+    if rng.chance(0.08):
+        # a raw / packet-like stream: reads inside header lines come up
+        # short (takes effect on the simulated handles)
+        d['short_hdr'] = rng.randint(0, 999)
+
     return d
